@@ -18,6 +18,7 @@ import CaddyModel.C12.EffectLemmas
 import CaddyModel.C12.CasProof
 import CaddyModel.C12.IdResolve
 import CaddyModel.C12.SourceFacts
+import CaddyModel.C12.UniqueLemmas
 import CaddyModel.C12.Witness
 
 namespace CaddyModel.C12
@@ -311,6 +312,32 @@ theorem adapt_changes_nothing (env : Env) (r : Req) (s : State) (hp : r.path = a
   rw [hp, hr]
   exact handleAdapt_pure env r s
 
+/-! ### the representation invariant of Go maps -/
+
+/-- histories whose request bodies are trees without duplicate object keys — which is what
+    `encoding/json` decodes any body into -/
+inductive ReachableUK (env : Env) : State → Prop
+  | init : ReachableUK env initState
+  | step {s : State} (r : Req) : bodyUK r.body → ReachableUK env s → ReachableUK env (serve env r s).1
+
+theorem ReachableUK.reachable {env : Env} {s : State} (h : ReachableUK env s) : Reachable env s := by
+  induction h with
+  | init => exact .init
+  | step r _ _ ih => exact .step r ih
+
+/-- **no key twice, ever.** Every operation of the API (all five methods, array and object
+    destinations, PUT's fresh maps, rollback, /load, adapters) keeps the association lists
+    that stand for Go maps free of duplicate keys: after any such history neither the
+    in-memory tree nor the last loaded configuration has an object with a key twice. This
+    discharges the `uniq` hypothesis of `Addressable` / `id_resolves_partial`. -/
+theorem unique_keys_preserved {env : Env} (ha : adaptUK env) {s : State} (h : ReachableUK env s) :
+    uniqueKeys s.rawCfg = true ∧ ∀ j, s.rawCfgJSON = some j → uniqueKeys j = true := by
+  have : UKS s := by
+    induction h with
+    | init => exact uks_init
+    | step r hb _ ih => exact uk_serve ha ih hb
+  exact ⟨this.tree, this.loaded⟩
+
 /-! ### an object tagged with @id is reachable under /id/ as that same object -/
 
 /-- the tagged object at position `segs` of the loaded document `j`, indexed under `t`, can
@@ -590,5 +617,18 @@ example : (serve loadEnv (loadReq .post loadPath (.val (.obj [(idKey, .bool true
 -- /adapt
 example : (serve loadEnv (loadReq .post adaptPath (.val (.num [49])) .adapter) exLoaded)
     = (exLoaded, .okAdapt (.obj [(kApps, .obj [(kC12, .num [49])])])) := by decide
+
+-- unique_keys_preserved: the example histories are of that kind, and the wrapping adapter qualifies
+example : ReachableUK exEnv exLoaded := .step _ (by show uniqueKeys exDoc = true; decide) .init
+example : adaptUK loadEnv := by
+  intro b j hb h
+  cases b with
+  | val x =>
+    simp [loadEnv, wrapEx] at h; subst h
+    simp only [uniqueKeys, uniqueKeysO, lookup]
+    have : uniqueKeys x = true := hb
+    simp [this, kApps, kC12]
+  | empty => simp [loadEnv, wrapEx] at h
+  | bad => simp [loadEnv, wrapEx] at h
 
 end CaddyModel.C12
